@@ -14,7 +14,7 @@ import attrs
 import click
 
 from .exceptions import GWFError
-from .utils import is_valid_name, timer
+from .utils import dump_json_atomic, is_valid_name, timer
 
 logger = logging.getLogger(__name__)
 
@@ -134,8 +134,7 @@ class FileSpecHashes:
             pass
 
     def close(self):
-        with open(self.path, "w") as hashes_file:
-            json.dump(self.hashes, hashes_file)
+        dump_json_atomic(self.hashes, self.path)
 
     def __enter__(self):
         return self
